@@ -26,6 +26,19 @@ NOTES = {
     "C15d": "first evaluation missed it (the server always hosted all or all but one partition); caught after any non-empty subset of partitions can be hosted, down to exactly one of many",
     "C07c": "first evaluation missed it; caught after a plan may restart the replica from a checkpoint in the middle of the log (which also exposed the known finding C07-kv-commands-on-hll-key-depend-on-cache-flush)",
     "C05c": "first evaluation missed it; caught after the generator got the macro 'snapshot marker, then a Save that carries only a hard state' (and saves sized to end near the segment boundary)",
+    "C11e": "a reply defect of the apply batch (responses of an aborted batch leak into the next one); C11's check works without apply batches. Caught by C04's pending-table state machine once it modelled the batch semantics (batchable writes, abort on an apply-time refusal)",
+    "C11f": "an apply-path panic that needs two proposals to pass the leader's pre-check before either is applied; C11 runs one command at a time. Caught by C07 and C09, which apply multi-entry logs / batches",
+    "C07e": "engine dependence of a range delete with more than 5000 elements; C07's logs never build that many. Caught by the engine differential C20 (quick tier)",
+    "C07f": "first evaluation missed it everywhere; caught by C04's pending-table state machine after an HMSET whose second value is over the size limit was added (the first pair must not survive the refusal)",
+    "C12f": "a reverse sub-key scan that leaves its collection; C12's frame check does not scan. Caught by C13 (the scan does not terminate / pages differ)",
+    "C12e": "NOT caught: it needs a sorted-set score of -0. The sign of zero is excluded from every score pool because the implementation itself formats -0 inconsistently (ZSCORE answers -0, ZRANGE WITHSCORES answers 0), and C12's codec sub-run tolerates encodings that differ only in the sign of zero for the same reason. Stated as a miss",
+    "C06e": "a torn tail makes ValidSnapshotEntries fail although ReadAll + Repair can read the log; process kills rarely tear a record (the page cache survives). Caught by C05 after it required that ValidSnapshotEntries does not fail on an image the rest of the restart sequence reads back",
+    "C08f": "needs a list above 5000 elements, LCLEAR, and a rebuild at least as long; C08's sequences are short. Caught by C12's big-collection mode after 'clear, then build again a little longer' was added",
+    "C05e": "NOT caught, and not reachable by a history production can produce: the lost hard state is only missed when the log is opened at a marker in the new segment, i.e. at an index the saved hard states have not committed yet; production opens at markers ValidSnapshotEntries returns, which are at or below the committed index, and a commit beyond the cut writes a hard state into the new segment. The generator is kept sound rather than widened",
+    "C19e": "NOT caught: it is in the remote-snapshot path (ApplyRemoteSnap after NotifyTransferSnap / rsync between clusters), which C19 states as not driven",
+    "C15e": "first evaluation missed it (partition counts 1,2,3,4,8 only, and the server's formula was copied, not called); caught after the routing sub-run draws counts up to 1024 and asks the real NamespaceMgr",
+    "C19f": "first evaluation missed it; caught after deliveries addressed to a raft group that is not loaded on the node were added (they must not be acknowledged)",
+    "C04f": "first evaluation missed it; caught by the pending-table state machine after it modelled the batch semantics",
     "C15a": "first evaluation missed it; caught after the routing sub-run got a namespace life cycle step (an earlier creation of the same name with another partition count that fails while opening its store)",
     "C16b": "first evaluation missed it; caught after truncation cuts at every field boundary of large messages were added",
     "C19b": "first evaluation missed it (only the receiver was driven); caught by the new sender sub-run: the real logSyncerSM + RemoteLogSender over loopback gRPC in front of the real receiver",
@@ -37,7 +50,7 @@ NOTES = {
 
 
 # a change filed under one property by its author but caught by another property's check: that check is run as well
-ALT = {"C12d": "C08", "C04d": "C03"}
+ALT = {"C12d": "C08", "C04d": "C03", "C11e": "C04", "C11f": "C07", "C07e": "C20", "C07f": "C04", "C12f": "C13", "C06e": "C05", "C08f": "C12"}
 
 
 def demo_cmd(d):
